@@ -4,7 +4,7 @@
   A generated program is a list of MiniGo functions over a concrete store (8 int locals, 4 int globals, an
   output trace) with concrete tables for the opaque actions / conditions / call sites:
      prog := <acts>/<conds>/<calls>/<fns>          (`-` = empty table, entries `;`-separated, fields `.`-separated)
-     act  := dst.x.y.k.p        dst = (x + 2*y + k) % 1009 ; p=1: println("a", id, dst)   (variable 12 = constant 0;
+     act  := dst.x.y.k.p        dst = (x + 2*y + k) % 1009 ; p=1: println("a", id, dst) ; p=2: only println("t", id, x)   (variable 12 = constant 0;
                                 action id 1000+f = call site f whose callee is NOT blocking, i.e. an ordinary action)
      cond := x.k.m.t.p          b = (x + k) % m < t        ; p=1: println("c", id, b)
      call := kind.callee.arg.dst.k    kind 0: leaf  — yield(site=callee); dst = (arg + k) % 1009
@@ -172,6 +172,8 @@ def showB (b : Bool) : String := if b then "true" else "false"
 
 def doAct (P : Prog) (a : Nat) (s : St) : St :=
   let d := P.acts.getD a default
+  -- p = 2: a traced argument evaluation `tr(id, x)`: println("t", id, x), nothing assigned
+  if d.p == 2 then s.print s!"t {a} {s.get d.x}" else
   let v := (s.get d.x + 2 * s.get d.y + d.k) % 1009
   let s := s.set d.dst v
   if d.p == 1 then s.print s!"a {a} {v}" else s
